@@ -96,10 +96,12 @@ package stack
 //@     && (s.state == gotCreated ==> len(s.Goroutines[len(s.Goroutines)-1].CreatedBy.Calls) >= 1)
 //@     && (RaceG(s.state) ==> 0 <= s.goroutineIndex && s.goroutineIndex < len(s.Goroutines))
 //@     && (s.state == gotRaceGoroutineFunc ==> len(s.Goroutines[s.goroutineIndex].CreatedBy.Calls) >= 1)
+//@     && (s.Goroutines == nil || rootOf(s.Goroutines) > rootOf(s.Snapshot))
+//@     && (forall i :: 0 <= i && i < len(s.Goroutines) ==> rootOf(s.Goroutines[i]) > rootOf(s.Snapshot) && (s.Goroutines[i].Stack.Calls == nil || rootOf(s.Goroutines[i].Stack.Calls) > rootOf(s.Snapshot)) && (s.Goroutines[i].CreatedBy.Calls == nil || rootOf(s.Goroutines[i].CreatedBy.Calls) > rootOf(s.Snapshot)))
 
 //@ func (*scanningState).scan
 //@   requires Inv(s)
-//@   modifies scanningState.* at s; Snapshot.Goroutines at s.Snapshot; E:*stack.Goroutine; Goroutine.*, Signature.*, Stack.*, Call.*, Func.*, Args.*, Arg.*
+//@   modifies scanningState.* at s; Snapshot.Goroutines at s.Snapshot; E:*stack.Goroutine, Goroutine.*, Signature.*, Stack.*, Call.*, Func.*, Args.*, Arg.* after s.Snapshot
 //@   ensures [stateInv C03 C07] Inv(s) && s.Snapshot == old(s.Snapshot)
 //@   ensures [doneAbsorbing C07] old(s.state) == done ==> !result0 && s.state == done
 //@   ensures [errNotConsumed C07] result1 != nil ==> !result0
@@ -200,7 +202,26 @@ package stack
 //@   loop 2: invariant 0 <= depth && depth < 6 && 0 <= i && (forall k :: 0 <= k && k <= depth ==> stack[k] != nil && fresh(stack[k]) && live(stack[k]) && (stack[k].Values == nil || fresh(stack[k].Values)))
 //@   loop 2: decreases closed - i
 
+//@ func (*Opts).isValid
+//@   requires o != nil
+//@   modifies nothing
+//@   loop 0: invariant -1 <= rangeindex
+//@   loop 0: decreases len(o.LocalGOPATHs) - rangeindex
+
+// Post-processing steps of ScanSnapshot, not yet under contract: assumed to
+// touch only the object graph built by the same ScanSnapshot call.
+//@ func nameArguments@ScanSnapshot
+//@   option assumed
+//@   modifies Arg.Name caller-fresh
+//@ func (*Snapshot).guessPaths@ScanSnapshot
+//@   option assumed
+//@   modifies Snapshot.*, Call.*, MD:map[string]string, MV:map[string]string, ML:map[string]string caller-fresh
+//@ func (*Snapshot).augment@ScanSnapshot
+//@   option assumed
+//@   modifies Args.Processed caller-fresh
+
 //@ func ScanSnapshot
+//@   modifies ghost:fetched at in; ghost:dataReads at in; ghost:wlen, ghost:wdata, ghost:werrs at prefix
 //@   gvar rdErr error = zero
 //@   update after-call readLine#1: rdErr := ret1
 //@   requires in != nil && prefix != nil
